@@ -204,6 +204,13 @@ def buffer_to_tensors(flatbuffer_model: Any) -> dict[int, list[Any]]:
         if tensor.buffer not in buffer_to_tensor_map:
           buffer_to_tensor_map[tensor.buffer] = []
         buffer_to_tensor_map[tensor.buffer].append(tensor)
+    # Graph inputs/outputs are the tensors of the virtual input/output ops: a
+    # constant that is returned directly has no other operator attached to it.
+    for tensor_idx in list(subgraph.inputs) + list(subgraph.outputs):
+      tensor = subgraph.tensors[tensor_idx]
+      if tensor.buffer not in buffer_to_tensor_map:
+        buffer_to_tensor_map[tensor.buffer] = []
+      buffer_to_tensor_map[tensor.buffer].append(tensor)
   return buffer_to_tensor_map
 
 
